@@ -13,6 +13,8 @@ import Rc.Drv.C04
 import Rc.Drv.C03
 import Rc.Drv.C12
 import Rc.Drv.C06
+import Rc.Drv.C05
+import Rc.Drv.C14
 import Rc.Drv.C18
 
 def dispatch (prop : String) : Option (List String → String) :=
@@ -27,6 +29,8 @@ def dispatch (prop : String) : Option (List String → String) :=
   | "C03" => some Rc.Drv.C03.handle
   | "C12" => some Rc.Drv.C12.handle
   | "C06" => some Rc.Drv.C06.handle
+  | "C05" => some Rc.Drv.C05.handle
+  | "C14" => some Rc.Drv.C14.handle
   | "C18" => some Rc.Drv.C18.handle
   | _ => none
 
